@@ -500,6 +500,7 @@ let render_vres f = function
   | VPanic -> "PANIC"
   | VUnmodelled -> "UNMODELLED"
 
+let last_av = ref None
 let attrval_suite () =
   let idx = ref 0 in
   let is_enc = ref false in
@@ -530,7 +531,14 @@ let attrval_suite () =
           if !is_enc && mres <> "UNMODELLED" then emit (Printf.sprintf "S %d %d C02 -" i (if mres = String.sub line 2 (n - 2) then 1 else 0));
           let nopanic = not (n >= 7 && String.sub line 2 5 = "PANIC") in
           emit (Printf.sprintf "S %d %d C03val -" i (if nopanic then 1 else 0));
+          last_av := Some i;
           pending := None
+      end else if n >= 8 && String.sub line 0 8 = "J touch=" then begin
+        (* C19: the accessors of the decoded value were all called (also on a clone) *)
+        (match !last_av with
+         | Some i -> emit (Printf.sprintf "S %d %d C19acc accessor-panics-on-decoded-value" i (if String.sub line 8 (n - 8) = "ok" then 1 else 0))
+         | None -> ());
+        last_av := None
       end
     done
   with End_of_file -> ())
